@@ -26,7 +26,10 @@ DeclarativeSane ==
            /\ \A o \in O : D[o.p].t = "def" =>                            \* a use refers to a declaration
                   \E d \in O : d.p = D[o.p].d /\ d.role = "decl" /\ d.n = o.n /\ d.ns = o.ns
            /\ \A o \in O : (o.role = "decl") <=> (D[o.p].t \in {"self", "redef"})
-           /\ \A o \in O : D[o.p].t = "alias" => o.lang = "own"
+           /\ \A o \in O : D[o.p].t = "alias" => Core(o.lang) = "own"
+           /\ \A o \in O : D[o.p].t = "enum" => WithEnum(o.lang) /\ o.n = AliasVar /\ o.ns = "v"
+           \* an enum const of the alias's spelling hides the alias everywhere
+           /\ WithEnum(base) => \A o \in O : ~(D[o.p].t = "alias" /\ o.ns = "v")
 
 ASSUME ndJsonSerialize(IOEnv.OUT, <<>> \o Rows(Fam, Max))
 ASSUME PrintT(<<"GEN", Fam, Max, Cardinality(Cases(Fam, Max))>>)
